@@ -76,23 +76,24 @@ Definition use_ok (u : site) : bool :=
    - std::env::args_os in main: the command line IS the input;
    - `unsafe`: the extern declaration of SetConsoleMode in windows_console.rs (cfg(windows) console set-up);
    - {:?} formatting: of BigInt / Value / Option<usize> under --debug-iters, of Span / file handle (numbers) for the
-     de-duplication key of report.rs and Span's Debug; none of a type containing a hash container. *)
+     de-duplication key of report.rs and Span's Debug; none of a type containing a hash container
+     (since fix f8a4217 the --debug-iters traces go through `debug_println!`, same arguments: hashes re-reviewed). *)
 Definition allowed_ambient : list site := [
-  ("src/asm/matcher/mod.rs", "match_all", "debug-format", "51182c5a8abac3a9");
-  ("src/asm/resolver/addr.rs", "resolve_addr", "debug-format", "b72842ed904f50d9");
-  ("src/asm/resolver/align.rs", "resolve_align", "debug-format", "111c9d8f4507e829");
-  ("src/asm/resolver/constant.rs", "resolve_constant_simple", "debug-format", "a82b72f7d281bb47");
-  ("src/asm/resolver/constant.rs", "resolve_constant_simple", "debug-format", "e1eb53e0e5d2a2b4");
-  ("src/asm/resolver/constant.rs", "resolve_constant", "debug-format", "a82b72f7d281bb47");
-  ("src/asm/resolver/constant.rs", "resolve_constant", "debug-format", "e1eb53e0e5d2a2b4");
-  ("src/asm/resolver/data_block.rs", "resolve_data_element", "debug-format", "7be00d2614b461d5");
-  ("src/asm/resolver/data_block.rs", "resolve_data_element", "debug-format", "636f983435e810c6");
-  ("src/asm/resolver/instruction.rs", "resolve_instruction", "debug-format", "604da5d8a70ebc7b");
-  ("src/asm/resolver/instruction.rs", "resolve_instruction", "debug-format", "b2bfc0e6d8172ac2");
+  ("src/asm/matcher/mod.rs", "match_all", "debug-format", "9b46b37c933b34f3");
+  ("src/asm/resolver/addr.rs", "resolve_addr", "debug-format", "29d48a7d38509957");
+  ("src/asm/resolver/align.rs", "resolve_align", "debug-format", "f1dccbf0d3d234da");
+  ("src/asm/resolver/constant.rs", "resolve_constant_simple", "debug-format", "ced5a9d73b0c5c07");
+  ("src/asm/resolver/constant.rs", "resolve_constant_simple", "debug-format", "3d951ba3da5c618f");
+  ("src/asm/resolver/constant.rs", "resolve_constant", "debug-format", "ced5a9d73b0c5c07");
+  ("src/asm/resolver/constant.rs", "resolve_constant", "debug-format", "3d951ba3da5c618f");
+  ("src/asm/resolver/data_block.rs", "resolve_data_element", "debug-format", "1fab5baeebc68c9d");
+  ("src/asm/resolver/data_block.rs", "resolve_data_element", "debug-format", "f19fed28112e74b8");
+  ("src/asm/resolver/instruction.rs", "resolve_instruction", "debug-format", "7165e4c5012ea28e");
+  ("src/asm/resolver/instruction.rs", "resolve_instruction", "debug-format", "7cc41d98870cf3ee");
   ("src/asm/resolver/iter.rs", "new", "static", "ff9beddd69c72aeb");               (* static GLOBAL_SYMBOL_CTX: util::SymbolContext = *)
   ("src/asm/resolver/iter.rs", "next_simple", "static", "44032a11018d87e1");       (* static DUMMY_BANK_DATA: BankData = BankData { *)
-  ("src/asm/resolver/label.rs", "resolve_label", "debug-format", "fa785ffe92571e56");
-  ("src/asm/resolver/res.rs", "resolve_res", "debug-format", "1a6ed8ebdcf962b2");
+  ("src/asm/resolver/label.rs", "resolve_label", "debug-format", "3f9c5630c3c928b4");
+  ("src/asm/resolver/res.rs", "resolve_res", "debug-format", "fe2f095d2b78191d");
   ("src/diagn/report.rs", "wrap_in_parents_dedup", "debug-format", "5e7a11e3285520f4");
   ("src/diagn/span.rs", "fmt", "debug-format", "12cd1bd2169823b8");
   ("src/expr/eval.rs", "<struct EvalContext>", "static", "ab04cf62c070de5b");      (* static ASM_HYGIENIZE_PREFIX: &'static str = "__"; *)
